@@ -186,6 +186,8 @@ package cmd
 //@   flag noframe
 //@   requires r != nil
 //@   return [without_a_read_error_the_line_is_complete_however_long_it_is] err == nil ==> !isPrefix
+//@   loop 1
+//@     invariant [the_line_is_accumulated_in_storage_of_its_own_never_in_the_reader_s_buffer] arr(ln) == 0 || arr(ln) != arr(line)
 
 //@ func cmd.pruneCmd.RunE
 //@   flag noframe
